@@ -70,55 +70,129 @@ func checkC03(r *Run) {
 	c03ReadFcall(r, rf, rm)
 }
 
+// c03HeaderRead recognises the read of the length prefix and returns the call whose success guarantees the
+// four bytes were read, and the exact affine form of the wire length.
+//   (a) binary.Read(rd, LittleEndian, &x) with x uint32
+//   (b) io.ReadFull(rd, hdr[:]) over a 4-byte buffer, value binary.LittleEndian.Uint32(hdr[:])
+// A single rd.Read into the header buffer is reported: it may return fewer than 4 bytes.
+func c03HeaderRead(r *Run, fa *FA, rm *ssa.Function, rdParam ssa.Value) (*ssa.Call, *Lin, string) {
+	for _, hdr := range findCalls(rm, "encoding/binary.Read") {
+		var wire *ssa.Alloc
+		if mi, ok := hdr.Call.Args[2].(*ssa.MakeInterface); ok {
+			wire, _ = mi.X.(*ssa.Alloc)
+		}
+		if wire == nil || hdr.Call.Args[0] != rdParam {
+			continue
+		}
+		b, sg, ok := intBits(wire.Type().Underlying().(*types.Pointer).Elem())
+		if !ok || b != 32 || sg {
+			return nil, nil, "the length prefix is not read as a 4-byte unsigned integer"
+		}
+		if !isLittleEndianArg(hdr.Call.Args[1]) {
+			return nil, nil, "the length prefix is not read little-endian"
+		}
+		var wireSym *Sym
+		eachInstr(rm, func(in ssa.Instruction) {
+			if u, ok := in.(*ssa.UnOp); ok && u.Op == token.MUL && u.X == ssa.Value(wire) && instrDominates(hdr, u) {
+				sy := fa.Sym(u)
+				if wireSym == nil {
+					wireSym = sy
+				} else if wireSym.K != sy.K {
+					wireSym = &Sym{Op: "other", K: "inconsistent"}
+				}
+			}
+		})
+		if wireSym == nil || wireSym.K == "inconsistent" {
+			return nil, nil, "the length variable is rewritten after being read"
+		}
+		return hdr, linAtom(wireSym), ""
+	}
+	// (b) / (c): a byte buffer decoded with LittleEndian.Uint32
+	var dec *ssa.Call
+	eachInstr(rm, func(in ssa.Instruction) {
+		if c, ok := in.(*ssa.Call); ok && calleeName(&c.Call) == "(encoding/binary.littleEndian).Uint32" {
+			dec = c
+		}
+	})
+	if dec == nil {
+		eachInstr(rm, func(in ssa.Instruction) {
+			if c, ok := in.(*ssa.Call); ok && strings.HasSuffix(calleeName(&c.Call), "bigEndian).Uint32") {
+				dec = c
+			}
+		})
+		if dec != nil {
+			return nil, nil, "the length prefix is decoded big-endian"
+		}
+		return nil, nil, ""
+	}
+	bufBase := func(v ssa.Value) ssa.Value {
+		if sl, ok := v.(*ssa.Slice); ok {
+			return sl.X
+		}
+		return v
+	}
+	base := bufBase(dec.Call.Args[len(dec.Call.Args)-1])
+	size := int64(-1)
+	if a, ok := base.(*ssa.Alloc); ok {
+		if arr, ok := a.Type().Underlying().(*types.Pointer).Elem().Underlying().(*types.Array); ok {
+			size = arr.Len()
+		}
+	}
+	if ms, ok := base.(*ssa.MakeSlice); ok {
+		if c, ok := constInt(ms.Len); ok {
+			size = c
+		}
+	}
+	if size != 4 {
+		return nil, nil, "the header buffer is not 4 bytes"
+	}
+	for _, f := range findCalls(rm, "io.ReadFull", "io.ReadAtLeast") {
+		if f.Call.Args[0] == rdParam && bufBase(f.Call.Args[1]) == base && instrDominates(f, dec) && callSucceededAt(f, dec) {
+			return f, fa.Lin(dec), ""
+		}
+	}
+	for _, f := range findCalls(rm, "invoke io.Reader.Read") {
+		if bufBase(f.Call.Args[0]) == base {
+			return nil, nil, "the length prefix is fetched with a single Read, which may return fewer than 4 bytes: the frame length is then wrong and the stream loses synchronisation (use io.ReadFull)"
+		}
+	}
+	return nil, nil, "the header buffer is decoded without a successful full read of 4 bytes"
+}
+
 func c03Readmsg(r *Run, rm *ssa.Function) {
 	fa := r.P.FA(rm)
 	pParam := rm.Params[1]
 	rdParam := rm.Params[0]
-	hdrs := findCalls(rm, "encoding/binary.Read")
 	fulls := findCalls(rm, "io.ReadFull")
 	copys := findCalls(rm, "io.CopyN")
-	r.Floor("frame-read", len(hdrs), 1, "binary.Read of the size header")
+	hdr, wireLin, problem := c03HeaderRead(r, fa, rm, rdParam)
+	if hdr == nil {
+		if problem != "" {
+			r.Bad("frame-read", "readmsg: the 4-byte little-endian length prefix is read completely", rm.Pos(), problem)
+		} else {
+			r.Undecided("frame-read", "readmsg: the 4-byte little-endian length prefix is read completely", rm.Pos(), "no recognised read of the length prefix (binary.Read into a uint32, or io.ReadFull of 4 bytes + LittleEndian.Uint32)")
+		}
+		return
+	}
+	// the body read is the ReadFull that is not the header read
+	var bodyFulls []*ssa.Call
+	for _, f := range fulls {
+		if f != hdr {
+			bodyFulls = append(bodyFulls, f)
+		}
+	}
+	fulls = bodyFulls
 	r.Floor("frame-read", len(fulls), 1, "io.ReadFull of the body")
 	r.Floor("discard", len(copys), 1, "io.CopyN discard of an oversize remainder")
-	if len(hdrs) != 1 || len(fulls) != 1 || len(copys) != 1 {
-		if len(hdrs) > 1 || len(fulls) > 1 || len(copys) > 1 {
-			r.Undecided("frame-read", "readmsg: one header read, one body read, one discard", rm.Pos(), "more than one read of a kind: shape not recognised")
+	if len(fulls) != 1 || len(copys) != 1 {
+		if len(fulls) > 1 || len(copys) > 1 {
+			r.Undecided("frame-read", "readmsg: one body read, one discard", rm.Pos(), "more than one read of a kind: shape not recognised")
 		}
 		return
 	}
-	hdr, full, cp := hdrs[0], fulls[0], copys[0]
-	// header: little-endian uint32 read from rd into a local
-	var wire *ssa.Alloc
-	if mi, ok := hdr.Call.Args[2].(*ssa.MakeInterface); ok {
-		wire, _ = mi.X.(*ssa.Alloc)
-	}
-	okHdr := wire != nil && hdr.Call.Args[0] == rdParam
-	if okHdr {
-		b, s, ok := intBits(wire.Type().Underlying().(*types.Pointer).Elem())
-		okHdr = ok && b == 32 && !s
-	}
-	r.Check(okHdr, "frame-read", "readmsg: size header is a uint32 read from rd", hdr.Pos(), "the length prefix is not read as 4 unsigned bytes from rd")
-	if !okHdr {
-		return
-	}
-	r.Check(isLittleEndianArg(hdr.Call.Args[1]), "frame-read", "readmsg: size header is little-endian", hdr.Pos(), "length prefix byte order is not LittleEndian")
-	// the wire value as an atom: a load of `wire` after the read
-	var wireSym *Sym
-	eachInstr(rm, func(in ssa.Instruction) {
-		if u, ok := in.(*ssa.UnOp); ok && u.Op == token.MUL && u.X == wire && instrDominates(hdr, u) {
-			s := fa.Sym(u)
-			if wireSym == nil {
-				wireSym = s
-			} else if wireSym.K != s.K {
-				wireSym = &Sym{Op: "other", K: "inconsistent"}
-			}
-		}
-	})
-	if wireSym == nil || wireSym.K == "inconsistent" {
-		r.Undecided("frame-read", "readmsg: wire length value", hdr.Pos(), "the length variable is rewritten after being read: cannot name the wire length")
-		return
-	}
-	body := linAtom(wireSym).Sub(linConst(4)) // length counts itself
+	full, cp := fulls[0], copys[0]
+	r.Ok("frame-read", "readmsg: the 4-byte little-endian length prefix is read completely", hdr.Pos(), "wire length = "+wireLin.String())
+	body := wireLin.Sub(linConst(4)) // length counts itself
 
 	// ReadFull reads from rd into p or a prefix of p, after a successful header read
 	buf := full.Call.Args[1]
